@@ -251,6 +251,16 @@ func bigTextOracle(e *Env) {
 						if out != want {
 							return "", fmt.Errorf("RENDER-DIFF at byte %d of %d", firstDiff(out, want), len(want))
 						}
+						// the returned string is kept; after a few other renders it still holds the same bytes
+						kept, keptCopy := out, strings.Clone(out)
+						for k := 0; k < 3; k++ {
+							o := twig.New()
+							o.RegisterString("small", "[Hello {{ v }}]"+strings.Repeat("z", k*40000))
+							o.Render("small", map[string]interface{}{"v": "World"})
+						}
+						if kept != keptCopy {
+							return "", fmt.Errorf("KEPT-RESULT-CHANGED at byte %d of %d", firstDiff(kept, keptCopy), len(keptCopy))
+						}
 						pw := &plainWriter{}
 						if err := eng.RenderTo(pw, "big", map[string]interface{}{"v": "V"}); err != nil {
 							return "", err
